@@ -14,7 +14,12 @@ import (
 // vpAgent: a store whose user "u" (password "old") has a record under set 1, while the
 // configured default is def; plus admin "root".
 func vpAgent(def int, mode string) (s *store, st *Store, base, cfg string) {
-	base, cfg = vpAgentDir(1)
+	return vpAgentRec(1, def, mode)
+}
+
+// vpAgentRec: as vpAgent, with the users' records written under parameter set recSet.
+func vpAgentRec(recSet, def int, mode string) (s *store, st *Store, base, cfg string) {
+	base, cfg = vpAgentDir(recSet)
 	vpSeedUser(cfg, "root", "rootpw", true)
 	vpSeedUser(cfg, "u", "old", false)
 	vpYAMLFile(cfg, vpConfigDoc(base, def))
@@ -120,7 +125,8 @@ func VP_C12_UpgradeBehaviour() {
 	mode := vpModes()
 	vpArgonLen = []int{32, 8}[vpChoose("argon2id-digest-length", 2)]
 	// auxiliary data after the record must survive an upgrade
-	s, st, base, _ := vpAgent(def, mode)
+	recSet := 1 + vpChoose("record-set", 2) // the record's set may be lower or higher than the default
+	s, st, base, _ := vpAgentRec(recSet, def, mode)
 	vpArgonLen = 32
 	_ = s
 	path := filepath.Join(base, "u.user")
@@ -154,7 +160,7 @@ func VP_C12_UpgradeBehaviour() {
 	vpSettle()
 	vpAssert("verdict", ok == (pw == "old"))
 	changed := !vpFsSame(before, vpFsSnapshot(base))
-	upgradeDue := mode == "local" && def == 2 && pw == "old" && !obstructed
+	upgradeDue := mode == "local" && def != recSet && pw == "old" && !obstructed
 	if obstructed {
 		d, _ := lib.NewDirFromConfig(s.configfile)
 		okAfter, _, _, _, _ := d.Authenticate("u", "old")
@@ -165,7 +171,7 @@ func VP_C12_UpgradeBehaviour() {
 		vpAssert("upgrade-happens-on-an-idle-agent", changed)
 		raw1, _ := os.ReadFile(path)
 		f, rest, okf := vpSplit5(string(raw1))
-		vpAssert("rewritten-under-the-default-set", okf && f[0] == "hmac_sha256_scrypt" && f[2] == "2")
+		vpAssert("rewritten-under-the-default-set", okf && f[0] == []string{"", "argon2id", "hmac_sha256_scrypt"}[def] && f[2] == []string{"", "1", "2"}[def])
 		vpAssert("auxiliary-data-unchanged", rest == aux)
 		d, _ := lib.NewDirFromConfig(s.configfile)
 		ok2, adm2, upg2, _, _ := d.Authenticate("u", "old")
